@@ -71,6 +71,11 @@ def rule_order(an, res, prop, containers):
             if k not in ('INSERT', 'FIND', 'ERASE'):
                 continue
             for top in method_segments(an, cm, roles, m, res):
+                for e in top.effects:
+                    if e.kind == 'OUT_CALL' and str(e.name).startswith('algo:'):
+                        res.ob('R-USE-POS', ok=False)
+                        V(res, prop, 'R-USE-POS', cm, m.key(), 'the input range is re-arranged (%s) before it is applied' % e.name[5:], e.site,
+                          'insertions / uses are recorded in the order the range lists them; %s changes that order' % e.name[5:])
                 # a use inside a range call counts like a single call: every element performs the single-key operation
                 for lp, s2 in ops.bodiless_iterations(top):
                     res.ob('R-USE-POS', ok=False)
